@@ -41,6 +41,8 @@ var extraAnchors = map[string][]string{
 	"C08": {pkgWriter + "\tChannelWriter\tcreateCollection", pkgWriter + "\tChannelWriter\tdropCollection", pkgWriter + "\tChannelWriter\tcreatePartition", pkgWriter + "\tChannelWriter\tdropPartition", pkgWriter + "\tChannelWriter\tdropDatabase"},
 	"C11": {pkgServer + "\tMetaCDC\tPause", pkgServer + "\tMetaCDC\tResume", pkgServer + "\tMetaCDC\tDelete"},
 	"C05": {pkgServer + "\tMetaCDC\treplicateMsgsFunc"},
+	"C09": {pkgWriter + "\tChannelWriter\tWaitObjReady", pkgWriter + "\tChannelWriter\tWaitDatabaseReady", pkgWriter + "\tChannelWriter\tWaitCollectionReady", pkgWriter + "\tChannelWriter\tWaitPartitionReady", pkgWriter + "\tChannelWriter\tWaitObjReadyForAPIEvent", pkgWriter + "\tChannelWriter\tUpdateNameMappings"},
+	"C20": {pkgWriter + "\tChannelWriter\tWaitObjReady", pkgWriter + "\tChannelWriter\tWaitPartitionReady", pkgWriter + "\tChannelWriter\tWaitCollectionReady", pkgWriter + "\t\tUpdateMsgBase"},
 }
 
 func anchoredFuncs(w *World, prop string) []*ssa.Function {
@@ -558,6 +560,13 @@ func genericRules(w *World, r *Report, prop string) {
 				for i, a := range call.Args {
 					names[i] = normName(argName(a))
 				}
+				// a name that says "database" handed to a parameter that says "collection" (or partition), etc.
+				for i := 0; i < len(call.Args); i++ {
+					pr, ar := identRole(sig.Params().At(i).Name()), identRole(argName(call.Args[i]))
+					if pr != "" && ar != "" && pr != ar && isStringType(sig.Params().At(i).Type()) {
+						r.Fail(prop+"-G5", fmt.Sprintf("%s | call of %s argument %d", host, fo.Name(), i), call.Pos(), fmt.Sprintf("argument %q (a %s name) is passed for parameter %q (a %s name)", argName(call.Args[i]), ar, sig.Params().At(i).Name(), pr))
+					}
+				}
 				for i := 0; i < len(call.Args); i++ {
 					for j := i + 1; j < len(call.Args); j++ {
 						pi, pj := normName(sig.Params().At(i).Name()), normName(sig.Params().At(j).Name())
@@ -630,4 +639,26 @@ func pathTail(p string) string {
 		return p[i:]
 	}
 	return p
+}
+
+// identRole: which kind of object an identifier names, when it says so unambiguously.
+func identRole(n string) string {
+	l := strings.ToLower(n)
+	roles := map[string]bool{}
+	if strings.Contains(l, "partition") {
+		roles["partition"] = true
+	}
+	if strings.Contains(l, "collection") || strings.HasPrefix(l, "coll") {
+		roles["collection"] = true
+	}
+	if strings.Contains(l, "database") || strings.HasPrefix(l, "db") || strings.HasSuffix(l, "db") {
+		roles["database"] = true
+	}
+	if len(roles) != 1 {
+		return ""
+	}
+	for k := range roles {
+		return k
+	}
+	return ""
 }
